@@ -85,6 +85,12 @@ def builds(run):
     return {"release": b}
 
 
+# the two "exactly 100 / exactly 0" theorems go through Flocq's specification of IEEE division, which rests on the classical
+# real-number axioms of the Coq standard library; every other theorem of C18 is closed under the global context
+FLOCQ_AXIOMS = ("ClassicalDedekindReals.sig_not_dec", "ClassicalDedekindReals.sig_forall_dec",
+                "FunctionalExtensionality.functional_extensionality_dep", "Classical_Prop.classic")
+
+
 def mk_diff(run, bins):
     return Differential(run, bins, lambda c: "collections_model_entry", None, check_entry=lambda c: "collections_check_entry",
                         nontrivial=lambda c: c.prefix[2] >= 2)
@@ -92,7 +98,7 @@ def mk_diff(run, bins):
 
 def main():
     run = Run("C18")
-    run.do_proof(PROPS)
+    run.do_proof(PROPS, allowed_axioms=FLOCQ_AXIOMS)
     ok, msg = ensure_driver()
     if not ok:
         fatal(run, "model extraction / driver build", msg)
@@ -112,9 +118,11 @@ def main():
     run.cov["distribution"] = dist
     run.cov["samples"] = [cases[0].to_json(), cases[1].to_json(), cases[2].to_json()]
     run.finish(extra_trusted=["binary64 arithmetic modelled with Coq's SpecFloat (round to nearest even); NaN payloads not represented (canonical NaN on both sides)",
-                              "f64::total_cmp modelled on the bit patterns; f64::trunc followed by == as integer/inf/NaN classes"],
+                              "f64::total_cmp modelled on the bit patterns; f64::trunc followed by == as integer/inf/NaN classes",
+                              "Flocq (Debian package, /usr/lib/ocaml/coq/user-contrib/Flocq): Bdiv_correct and the SpecFloat equivalence lemmas of IEEE754/PrimFloat.v, used by the two theorems "
+                              "C18_all_satisfy_gives_exactly_100 / C18_none_satisfies_gives_exactly_0 only; axioms they depend on (standard library, via Flocq / Reals): " + ", ".join(FLOCQ_AXIOMS)],
                assumptions=["non-empty collections (as the property states)",
-                            "percentage == 100 / 0 in the all / none cases is checked by evaluation up to 200 members (Example percent_all_is_100), not proved for all sizes"])
+                            "percentage == 100 / 0 in the all / none cases is proved for 1 .. 2^64 members (Collections/Percent.v, through Flocq)"])
 
 
 def replay(path):
